@@ -79,6 +79,8 @@ type FnCtx struct {
 	ufAxioms map[string]string // per uninterpreted function: an axiom rendered right after its declaration (range well-formedness)
 	loopWrites map[string]map[string]bool
 	curFrame *Frame
+	pureHeap    map[string][]string // pure function key -> sorted read footprint (pureheap.go)
+	pureHeapBad map[string]bool
 }
 
 type Frame struct {
@@ -108,6 +110,7 @@ type Frame struct {
 	curLocalAddrs map[string]SV
 	localsSameBlock bool
 	frame *frameInfo
+	lineHintHits map[int]int // `hint at "line"` clauses: number of program points matched (ext_linehint.go)
 }
 
 type retRec struct {
@@ -122,6 +125,7 @@ type loopInfo struct {
 	ordinal int
 	writes  map[string]bool
 	all     bool
+	entry   *State // state on entry to the loop (merged forward edges, before the havoc): spec builtin loopentry(E), see ext_loopentry.go
 }
 
 func (fc *FnCtx) emit(cmd string) {
@@ -677,6 +681,7 @@ func (fr *Frame) walk(entry *State, params []SV, entryGuard string) {
 				for _, e := range fwd {
 					fr.checkInvariants(li, e, "inv-init")
 				}
+				li.entry = st.clone()
 				lw := fc.loopWrites[fmt.Sprintf("%s#%d", fr.prefix, b.Index)]
 				fc.havocComps(st, lw, lw["*"])
 				for _, in := range b.Instrs {
@@ -715,9 +720,13 @@ func (fr *Frame) walk(entry *State, params []SV, entryGuard string) {
 		}
 		g := fr.guard[b]
 		ghostDone := map[*GhostUpd]bool{}
+		lineHintDone := map[int]bool{}
 		for _, in := range b.Instrs {
 			if _, ok := in.(*ssa.Phi); ok {
 				continue
+			}
+			if fr.top && fr.spec != nil && fr.spec.hasLineHints() {
+				fr.lineHints(in, st, g, lineHintDone)
 			}
 			if fr.top && fr.spec != nil && len(fr.spec.GhostUpds) > 0 {
 				fr.ghostUpdates(in, st, g, ghostDone)
